@@ -87,6 +87,9 @@ def _block(block, agg):
             if op in ("prefix", "suffix") and at % stride:
                 continue
             _emit(agg, {"fam": "damage", "lang": lang, "seed": seed, "op": op, "at": at})
+    elif kind == "descs":
+        for desc in block[1]:
+            _emit(agg, desc)
     elif kind == "deep":
         _, lang, shape, d = block
         _emit(agg, {"fam": "deep", "lang": lang, "shape": shape, "d": d})
@@ -145,6 +148,9 @@ def run(ctx: core.Ctx):
         for shape in malformed.DEEP_SHAPES:
             for d in depths:
                 blocks.append(("deep", lang, shape, d))
+        extra = malformed.wild_descs(lang, stride) + malformed.corpus_descs(lang, ctx.pick(2, 8), ctx.pick(4, 1))
+        for i in range(0, len(extra), 400):
+            blocks.append(("descs", extra[i:i + 400]))
         blocks.append(("files", lang))
         for sh in range(4):
             blocks.append(("canon", lang, sh, 4))
